@@ -25,7 +25,22 @@ func c10AuthFor(version string, p *grParsed) []PDU {
 	if vtraits[version].StateRes == 1 {
 		return rrUnconflictedAuthV1(p.Sets)
 	}
-	return p.PDUs
+	if !p.AuthChainsOnly {
+		return p.PDUs
+	}
+	cited := map[string]bool{}
+	for _, e := range p.PDUs {
+		for _, a := range e.AuthEventIDs() {
+			cited[a] = true
+		}
+	}
+	var out []PDU
+	for _, e := range p.PDUs {
+		if cited[e.EventID()] {
+			out = append(out, e)
+		}
+	}
+	return out
 }
 
 func c10Check(ctx *vfCtx, c grCase) {
@@ -37,6 +52,11 @@ func c10Check(ctx *vfCtx, c grCase) {
 	algo := c10Algo(c.Version)
 	ctx.Class("algo/" + algo)
 	ctx.Class(fmt.Sprintf("sets/%d", len(p.Sets)))
+	if p.AuthChainsOnly {
+		ctx.Class("auth-events/the-auth-chains-proper")
+	} else {
+		ctx.Class("auth-events/every-event-of-the-room")
+	}
 	for _, e := range p.PDUs {
 		if len(e.PrevEventIDs()) >= 2 {
 			ctx.Class("history-with-merge-event")
